@@ -783,73 +783,84 @@ pub fn check_c17(input: &str, stats: &mut Stats, rng: &mut Rng, exhaustive_budge
         }
     }
 
-    // (e) mixed use: next() for the first k events, a peek(), then load() takes over — the peeked
-    // event must be the first one load() delivers and nothing may be lost or repeated. load() can
-    // only take over at a document boundary: after StreamStart or after a DocumentEnd.
-    if plain.error.is_none() && !plain.capped {
-        let mut boundaries: Vec<usize> = plain.events.iter().enumerate().filter(|(_, e)| matches!(e.0, SEv::StreamStart | SEv::DocEnd)).map(|(i, _)| i + 1).collect();
-        // before anything was pulled (a peek then sees StreamStart), and after everything was pulled
-        boundaries.push(0);
-        boundaries.push(plain.events.len());
-        if !boundaries.is_empty() {
-            let k = boundaries[rng.below(boundaries.len())];
-            let do_peek = rng.chance(2, 3);
-            let r = catch(|| {
-                let mut p = Parser::new_from_str(input);
-                let mut got: Vec<(SEv, SSpan)> = vec![];
-                for _ in 0..k {
-                    match p.next_event() {
-                        Some(Ok((e, s))) => got.push((sev(&e), sspan(&s))),
-                        _ => return None,
-                    }
+    // (e) mixed use: next() for the first k events, possibly a peek(), then load() takes over. At a
+    // document boundary (nothing pulled yet, after StreamStart, after a DocumentEnd, after everything)
+    // the calls together must tell the story of plain iteration, error included; a peeked event or
+    // error must not be lost. Inside a document load() cannot continue; it may refuse (any error),
+    // but it may not report success over events or an error that were dropped.
+    if !plain.capped {
+        let n_ev = plain.events.len();
+        let k = if rng.chance(1, 2) {
+            let mut b: Vec<usize> = plain.events.iter().enumerate().filter(|(_, e)| matches!(e.0, SEv::StreamStart | SEv::DocEnd)).map(|(i, _)| i + 1).collect();
+            b.push(0);
+            b.push(n_ev);
+            b[rng.below(b.len())]
+        } else {
+            rng.below(n_ev + 1)
+        };
+        let boundary = k == 0 || k == n_ev && plain.error.is_none() || (k > 0 && matches!(plain.events[k - 1].0, SEv::StreamStart | SEv::DocEnd));
+        let do_peek = rng.chance(2, 3);
+        let r = catch(|| {
+            let mut p = Parser::new_from_str(input);
+            let mut got: Vec<(SEv, SSpan)> = vec![];
+            for _ in 0..k {
+                match p.next_event() {
+                    Some(Ok((e, s))) => got.push((sev(&e), sspan(&s))),
+                    _ => return None,
                 }
-                if do_peek {
-                    let _ = p.peek();
+            }
+            if do_peek {
+                let _ = p.peek();
+            }
+            let mut rec = Recorder { events: vec![], cap: safety_cap(input) };
+            let res = p.load(&mut rec, true);
+            got.extend(rec.events);
+            // the stream has ended, whichever interface delivered StreamEnd: nothing follows
+            let mut after: Vec<String> = vec![];
+            if res.is_ok() {
+                if let Some(x) = p.peek() {
+                    after.push(format!("peek() returned {:?}", x.map(|e| sev(&e.0)).map_err(|e| serr(&e).display)));
                 }
-                let mut rec = Recorder { events: vec![], cap: safety_cap(input) };
-                let res = p.load(&mut rec, true);
-                got.extend(rec.events);
-                // the stream has ended, whichever interface delivered StreamEnd: nothing follows
-                let mut after: Vec<String> = vec![];
-                if res.is_ok() {
-                    if let Some(x) = p.peek() {
-                        after.push(format!("peek() returned {:?}", x.map(|e| sev(&e.0)).map_err(|e| serr(&e).display)));
-                    }
-                    if let Some(x) = p.next_event() {
-                        after.push(format!("next() returned {:?}", x.map(|e| sev(&e.0)).map_err(|e| serr(&e).display)));
-                    }
-                    let mut rec2 = Recorder { events: vec![], cap: 64 };
-                    let res2 = p.load(&mut rec2, true);
-                    if res2.is_err() || !rec2.events.is_empty() {
-                        after.push(format!("another load() delivered {:?} / {:?}", rec2.events.iter().map(|e| e.0.clone()).collect::<Vec<_>>(), res2.err().map(|e| serr(&e).display)));
-                    }
-                    let mut rec3 = Recorder { events: vec![], cap: 64 };
-                    let res3 = p.load(&mut rec3, false);
-                    if res3.is_err() || !rec3.events.is_empty() {
-                        after.push(format!("another load(multi=false) delivered {:?} / {:?}", rec3.events.iter().map(|e| e.0.clone()).collect::<Vec<_>>(), res3.err().map(|e| serr(&e).display)));
-                    }
+                if let Some(x) = p.next_event() {
+                    after.push(format!("next() returned {:?}", x.map(|e| sev(&e.0)).map_err(|e| serr(&e).display)));
                 }
-                Some((got, res.err().map(|e| serr(&e)), after))
-            });
-            if let Ok(Some((got, err, after))) = r {
-                stats.cnt("next_then_load_histories", 1);
-                if !after.is_empty() {
-                    viol(
-                        stats,
-                        "C17/after-stream-end/something-follows".into(),
-                        format!("{k} next() calls{} followed by load() delivered the whole stream; afterwards: {}", if do_peek { ", a peek()," } else { "" }, after.join("; ")),
-                        J::obj(vec![("input", J::s(input)), ("nexts", J::Int(k as i64)), ("peek", J::Bool(do_peek))]),
-                    );
+                let mut rec2 = Recorder { events: vec![], cap: 64 };
+                let res2 = p.load(&mut rec2, true);
+                if res2.is_err() || !rec2.events.is_empty() {
+                    after.push(format!("another load() delivered {:?} / {:?}", rec2.events.iter().map(|e| e.0.clone()).collect::<Vec<_>>(), res2.err().map(|e| serr(&e).display)));
                 }
-                let strip = |v: &[(SEv, SSpan)]| -> Vec<(SEv, Option<SSpan>)> { v.iter().map(|(e, s)| (e.clone(), if *e == SEv::StreamEnd { None } else { Some(*s) })).collect() };
-                if err.is_some() || strip(&got) != strip(&plain.events) {
-                    viol(
-                        stats,
-                        format!("C17/next-then-load/{}", if do_peek { "with-peek" } else { "without-peek" }),
-                        format!("{k} next() calls{} followed by load(): delivered {} events / error {:?}, plain iteration has {} events", if do_peek { ", a peek()," } else { "" }, got.len(), err.map(|e| e.display), plain.events.len()),
-                        J::obj(vec![("input", J::s(input)), ("nexts", J::Int(k as i64)), ("peek", J::Bool(do_peek))]),
-                    );
+                let mut rec3 = Recorder { events: vec![], cap: 64 };
+                let res3 = p.load(&mut rec3, false);
+                if res3.is_err() || !rec3.events.is_empty() {
+                    after.push(format!("another load(multi=false) delivered {:?} / {:?}", rec3.events.iter().map(|e| e.0.clone()).collect::<Vec<_>>(), res3.err().map(|e| serr(&e).display)));
                 }
+            }
+            Some((got, res.err().map(|e| serr(&e)), after))
+        });
+        if let Ok(Some((got, err, after))) = r {
+            stats.cnt("next_then_load_histories", 1);
+            stats.cnt(if boundary { "take_over_at_document_boundary" } else { "take_over_inside_a_document" }, 1);
+            let case = J::obj(vec![("input", J::s(input)), ("nexts", J::Int(k as i64)), ("peek", J::Bool(do_peek))]);
+            let how = format!("{k} next() calls{} followed by load()", if do_peek { ", a peek()," } else { "" });
+            if !after.is_empty() {
+                viol(stats, "C17/after-stream-end/something-follows".into(), format!("{how} delivered the whole stream; afterwards: {}", after.join("; ")), case.clone());
+            }
+            let strip = |v: &[(SEv, SSpan)]| -> Vec<(SEv, Option<SSpan>)> { v.iter().map(|(e, s)| (e.clone(), if *e == SEv::StreamEnd { None } else { Some(*s) })).collect() };
+            let same = strip(&got) == strip(&plain.events) && err == plain.error;
+            if boundary && !same {
+                viol(
+                    stats,
+                    format!("C17/next-then-load/{}", if do_peek { "with-peek" } else { "without-peek" }),
+                    format!("{how}: delivered {} events / error {:?}, plain iteration has {} events / error {:?}", got.len(), err.map(|e| e.display), plain.events.len(), plain.error.as_ref().map(|e| e.display.clone())),
+                    case,
+                );
+            } else if !boundary && err.is_none() && !same {
+                viol(
+                    stats,
+                    format!("C17/next-then-load/inside-a-document/success-over-lost-events/{}", if do_peek { "with-peek" } else { "without-peek" }),
+                    format!("{how} (inside a document): load() returned Ok with {} events delivered in all; plain iteration has {} events / error {:?}", got.len(), plain.events.len(), plain.error.as_ref().map(|e| e.display.clone())),
+                    case,
+                );
             }
         }
     }
